@@ -195,8 +195,18 @@ func TestSS2022IdleEviction(t *testing.T) {
 	if out.setupErr != nil {
 		t.Skipf("setup failed: %v", out.setupErr)
 	}
-	if out.violation == "" && len(out.liveMiss) > 0 {
-		out.violation = "SIG=C12/" + strings.SplitN(out.liveMiss[0], ":", 2)[0] + " " + strings.Join(out.liveMiss, "; ")
+	if out.setupErr == nil && out.violation == "" && len(out.liveMiss) > 0 && !out.fatal {
+		// a bounded-time miss must reproduce, exactly as for the random plans
+		first := out.liveMiss
+		fmt.Fprintf(os.Stderr, "C12 liveness miss (will retry): %v\nplan=%s\n", first, pj)
+		recSS.Label("liveness-retry", 1)
+		out = runPlan(p, workDir(t))
+		if out.setupErr != nil {
+			t.Skipf("setup failed on retry: %v", out.setupErr)
+		}
+		if out.violation == "" && len(out.liveMiss) > 0 {
+			out.violation = fmt.Sprintf("SIG=C12/%s missed in two runs of the plan; first run: %v; second run: %v", strings.SplitN(out.liveMiss[0], ":", 2)[0], first, out.liveMiss)
+		}
 	}
 	if out.violation != "" {
 		sig := strings.TrimPrefix(strings.Fields(out.violation)[0], "SIG=C12/")
